@@ -14910,7 +14910,10 @@ func ParseExtended(data []byte) (ExtendedCommunityInterface, error) {
 		as := binary.BigEndian.Uint16(data[2:4])
 		localAdmin := binary.BigEndian.Uint32(data[4:8])
 
-		if subtype == EC_SUBTYPE_LINK_BANDWIDTH {
+		// LinkBandwidthExtended is the non-transitive community (type 0x40)
+		// and always serialises as such: the transitive type 0x00 with the
+		// same sub-type must keep its transitivity when it is sent on.
+		if subtype == EC_SUBTYPE_LINK_BANDWIDTH && !transitive {
 			return NewLinkBandwidthExtended(as, math.Float32frombits(localAdmin)), nil
 		} else {
 			return NewTwoOctetAsSpecificExtended(subtype, as, localAdmin, transitive), nil
